@@ -374,9 +374,29 @@ def main():
     return exit_code
 
 
+class _WallClock(BaseException):
+    pass
+
+
+def _alarm(signum, frame):
+    raise _WallClock()
+
+
 if __name__ == "__main__":
+    # overall wall-clock limit (a change to the library may hang): quick 20 min, thorough 90 min, replay 20 min;
+    # override with VERIF_TIMEOUT_S. A timeout is an internal error (exit 2), never a violation.
+    import signal
+    limit = int(os.environ.get("VERIF_TIMEOUT_S", "5400" if "--thorough" in sys.argv else "1200"))
+    try:
+        signal.signal(signal.SIGALRM, _alarm)
+        signal.alarm(limit)
+    except (ValueError, AttributeError):
+        pass
     try:
         sys.exit(main())
     except subprocess.TimeoutExpired as e:
         print("TIMEOUT", e)
+        sys.exit(2)
+    except _WallClock:
+        print(f"TIMEOUT: {' '.join(sys.argv[1:3])} exceeded {limit} s")
         sys.exit(2)
